@@ -324,17 +324,33 @@ def tpc (P : Env Val) (s : St Val) (old : Old Val) : St Val :=
 def handlerObserve (P : Env Val) (s : St Val) : St Val :=
   tpc P (popCache P s) (popOld P s)
 
-/-- One heap mutation with everything it triggers. -/
+/-- A sibling handler on the mutated trait that reads the property (or not). -/
+def sib (P : Env Val) (b : Bool) (s : St Val) : St Val :=
+  if b then nestedRead P s else s
+
+/-- Dispatch of a change for which the property's handler is not called. -/
+def dispatchQuiet (P : Env Val) (s0 : St Val) (m : Mutation) : St Val :=
+  sib P (P.sibPost m && s0.dyn) (sib P (P.sibPre m) s0)
+
+/-- Dispatch of a change for which the property's handler is called.
+Notifier order (ctraits.c:2293-2310 `call_notifiers`: the list in registration
+order): class-level static handlers and `@observe`/`@on_trait_change` methods
+(`sibPre`), the property's observer, handlers attached later (`sibPost`).
+The legacy `pre_notify` is registered with `priority=True`
+(has_traits.py:3359-3361), i.e. it is put in front of everything. -/
+def dispatchFire (P : Env Val) (s0 : St Val) (m : Mutation) : St Val :=
+  if P.legacy then
+    sib P (P.sibPost m && s0.dyn) (tpc P (sib P (P.sibPre m) (popCache P s0)) (popOld P s0))
+  else
+    sib P (P.sibPost m && s0.dyn) (handlerObserve P (sib P (P.sibPre m) s0))
+
+/-- One heap mutation with everything it triggers: the value is stored
+first (ctraits.c `setattr_trait`; container methods call `notify` after the
+change), then the notifiers run. -/
 def mutate (P : Env Val) (s : St Val) (m : Mutation) : St Val :=
   let s0 : St Val := { s with heap := apply m s.heap }
   if changed s.heap m then
-    let f := P.fires s.heap m
-    -- legacy `pre_notify` is registered with priority=True: it runs first
-    let old := popOld P s0
-    let s1 := if f && P.legacy then popCache P s0 else s0
-    let s2 := if P.sibPre m then nestedRead P s1 else s1
-    let s3 := if f then (if P.legacy then tpc P s2 old else handlerObserve P s2) else s2
-    if P.sibPost m && s3.dyn then nestedRead P s3 else s3
+    if P.fires s.heap m then dispatchFire P s0 m else dispatchQuiet P s0 m
   else s0
 
 /-! ## Histories, construction and copies -/
@@ -358,7 +374,7 @@ def restore (P : Env Val) (h0 : Heap) (ws : List Write) : St Val :=
   runMuts P' { heap := h0 } (ws.map (fun w => ⟨P.root, w, false⟩))
 
 inductive Step where
-  | mut (m : Mutation)
+  | change (m : Mutation)
   | read
   | attach
   | detach
@@ -370,7 +386,7 @@ inductive Step where
   deriving Repr
 
 def step (P : Env Val) (s : St Val) : Step → St Val
-  | .mut m => mutate P s m
+  | .change m => mutate P s m
   | .read => (readProp P s).2
   | .attach => { s with dyn := true }
   | .detach => { s with dyn := false }
@@ -383,5 +399,29 @@ def run (P : Env Val) (s : St Val) (steps : List Step) : St Val :=
 /-- The specification instance of the machinery. -/
 def firesSpec (E : Expr) (root : Id) : Heap → Mutation → Bool :=
   fun h m => relevant E root h m
+
+
+/-! ## The source text this model was transcribed from
+
+Normalised (`ast.unparse`) text of the functions mirrored above, as they stand in
+the pinned tree.  `Props/C12.lean` proves these equal to what the translator
+`harness/translate/propstate.py` reads from the working tree on every run: an
+edit of any of these functions breaks that proof obligation. -/
+namespace Source
+
+def postInit : Bool := false
+def dispatch : String := "same"
+def handlerSrc : String := "def handler(instance, event):\n    if cached:\n        cache_name = TraitsCache + property_name\n        old = instance.__dict__.pop(cache_name, Undefined)\n    else:\n        old = Undefined\n    instance.trait_property_changed(property_name, old)"
+def cacheNameSrc : String := "name = TraitsCache + function.__name__[5:]"
+def cachedPropertySrc : String := "def decorator(self):\n    result = self.__dict__.get(name, Undefined)\n    if result is Undefined:\n        self.__dict__[name] = result = function(self)\n    return result"
+def legacyListenerSrc : String := "def _init_trait_property_listener(self, name, kind, cached, pattern):\n    if cached is None:\n\n        @weak_arg(self)\n        def notify(self):\n            self.trait_property_changed(name, None)\n    else:\n        cached_old = cached + ':old'\n\n        @weak_arg(self)\n        def pre_notify(self):\n            dict = self.__dict__\n            old = dict.get(cached_old, Undefined)\n            if old is Undefined:\n                dict[cached_old] = dict.pop(cached, None)\n        self.on_trait_change(pre_notify, pattern, priority=True, target=self)\n\n        @weak_arg(self)\n        def notify(self):\n            old = self.__dict__.pop(cached_old, Undefined)\n            if old is not Undefined:\n                self.trait_property_changed(name, old)\n    self.on_trait_change(notify, pattern, target=self)"
+def initObserversSrc : String := "def _init_trait_observers(self):\n    for name, states in self.__class__.__observer_traits__.items():\n        for state in states:\n            if not state['post_init']:\n                observe_api.apply_observers(object=self, handler=state['handler_getter'](self, name), graphs=state['graphs'], dispatcher=_ObserverDispatchers[state['dispatch']])"
+def postInitObserversSrc : String := "def _post_init_trait_observers(self):\n    for name, states in self.__class__.__observer_traits__.items():\n        for state in states:\n            if state['post_init']:\n                observe_api.apply_observers(object=self, handler=state['handler_getter'](self, name), graphs=state['graphs'], dispatcher=_ObserverDispatchers[state['dispatch']])"
+def setstateCalls : List String := ["_init_trait_listeners", "_init_trait_observers", "trait_set", "_post_init_trait_listeners", "_post_init_trait_observers", "traits_init"]
+def cloneCalls : List String := ["_init_trait_listeners", "_init_trait_observers", "copy_traits", "_post_init_trait_listeners", "_post_init_trait_observers", "traits_init", "_trait_set_inited"]
+def cInitOrder : List String := ["_init_trait_listeners", "_init_trait_observers", "has_traits_setattro", "_post_init_trait_listeners", "_post_init_trait_observers", "traits_init"]
+def cPropertyChangedCalls : List String := ["get_trait", "has_notifiers", "has_traits_getattro", "call_notifiers"]
+
+end Source
 
 end TraitsVerif.Model.Property
